@@ -15,6 +15,7 @@
 #include <vector>
 #include <clocale>
 #include <thread>
+#include <chrono>
 #include <mutex>
 #include <condition_variable>
 #include <functional>
@@ -142,6 +143,8 @@ int main(int argc, char **argv)
                 size_t p = std::stoul(f[0]);
                 QString text = unitsOf(f[3]);
                 int tag = f.size() > 4 && !f[4].empty() ? std::stoi(f[4]) : 0;
+                // optional 6th field: wall-clock pause (ms) before the message is constructed (the rules of C16 do not mention time)
+                if (f.size() > 5 && !f[5].empty()) std::this_thread::sleep_for(std::chrono::milliseconds(std::stoi(f[5])));
                 rec.calls.clear();
                 size_t n = 0;
                 const bool direct = tok[0] == 'a';
